@@ -67,16 +67,16 @@ type callPlan struct {
 }
 
 type callRec struct {
-	g, i      int
-	key       int
-	inv, ret  int64
-	val       any
-	err       error
-	fresh     bool
-	hasFresh  bool
-	ownExec   int64 // execution token if this call's own fn ran (0 otherwise)
-	ownRuns   int32
-	panicked  any // value recovered from the call, if it panicked
+	g, i     int
+	key      int
+	inv, ret int64
+	val      any
+	err      error
+	fresh    bool
+	hasFresh bool
+	ownExec  int64 // execution token if this call's own fn ran (0 otherwise)
+	ownRuns  int32
+	panicked any // value recovered from the call, if it panicked
 }
 
 type execRec struct {
@@ -511,6 +511,16 @@ func TestVerifC07ManyKeysInFlight(t *testing.T) {
 		st.Eval()
 		useSF := rapid.Bool().Draw(t, "singleFlight")
 		n := rapid.IntRange(20, 400).Draw(t, "keys")
+		if rapid.IntRange(0, 4).Draw(t, "burst") == 0 {
+			n = rapid.IntRange(1000, 3000).Draw(t, "burstKeys")
+		}
+		// 0-2 resident keys: a call on each stays inside its function across all waves of the other
+		// keys; after every wave new calls arrive on the resident keys and must still find that flight
+		nres := rapid.IntRange(0, 2).Draw(t, "residents")
+		waves := 1
+		if nres > 0 {
+			waves = rapid.IntRange(1, 3).Draw(t, "waves")
+		}
 		style := rapid.IntRange(0, 3).Draw(t, "keyStyle")
 		salt := rapid.StringMatching(`[a-z#:/]{0,6}`).Draw(t, "salt")
 		var do func(key string, fn func() (any, error)) (any, error)
@@ -531,45 +541,124 @@ func TestVerifC07ManyKeysInFlight(t *testing.T) {
 				return strings.Repeat(salt+"k", i%5) + fmt.Sprint(i)
 			}
 		}
-		gate := make(chan struct{})
-		started := make(chan int, n)
-		var wg sync.WaitGroup
-		vals := make([]any, n)
-		for i := 0; i < n; i++ {
-			wg.Add(1)
-			go func(i int) {
-				defer wg.Done()
-				vals[i], _ = do(key(i), func() (any, error) { started <- i; <-gate; return i, nil })
-			}(i)
+		rgate := make(chan struct{})
+		rstarted := make(chan int, nres)
+		rend := make([]int64, nres)
+		rkey := func(j int) string { return fmt.Sprintf("resident-%s-%d", salt, j) }
+		var rwg sync.WaitGroup
+		for j := 0; j < nres; j++ {
+			rwg.Add(1)
+			go func(j int) {
+				defer rwg.Done()
+				do(rkey(j), func() (any, error) { rstarted <- j; <-rgate; rend[j] = tick(); return "resident", nil })
+			}(j)
 		}
-		seen := map[int]bool{}
-		deadline := time.After(15 * time.Second)
-		for len(seen) < n {
+		for j := 0; j < nres; j++ {
 			select {
-			case i := <-started:
-				seen[i] = true
-			case <-deadline:
-				var missing []string
-				for i := 0; i < n && len(missing) < 5; i++ {
-					if !seen[i] {
-						missing = append(missing, key(i))
-					}
-				}
-				close(gate)
-				t.Fatalf("C07 violated (calls on different keys never wait for each other): with %d distinct keys in flight, "+
-					"%d functions did not start within 15 s while the others were parked, e.g. keys %q (singleFlight=%v)",
-					n, n-len(seen), missing, useSF)
+			case <-rstarted:
+			case <-time.After(15 * time.Second):
+				close(rgate)
+				t.Fatalf("C07: resident call did not start within 15 s (singleFlight=%v)", useSF)
 			}
 		}
-		close(gate)
-		wg.Wait()
-		for i := 0; i < n; i++ {
-			if vals[i] != i {
-				t.Fatalf("C07 violated: call on key %q returned %v, its own function returned %d (singleFlight=%v)", key(i), vals[i], i, useSF)
+		type joinT struct {
+			key      int
+			val      any
+			ownStart int64 // stamp at which the joiner's own function started, 0 = never ran
+			wave     int
+		}
+		var jmu sync.Mutex
+		var joins []*joinT
+		joinStarted := make(chan *joinT, 64)
+		for wave := 0; wave < waves; wave++ {
+			gate := make(chan struct{})
+			started := make(chan int, n)
+			var wg sync.WaitGroup
+			vals := make([]any, n)
+			for i := 0; i < n; i++ {
+				wg.Add(1)
+				go func(i int) {
+					defer wg.Done()
+					vals[i], _ = do(key(i), func() (any, error) { started <- i; <-gate; return i, nil })
+				}(i)
 			}
+			seen := map[int]bool{}
+			deadline := time.After(15 * time.Second)
+			for len(seen) < n {
+				select {
+				case i := <-started:
+					seen[i] = true
+				case <-deadline:
+					var missing []string
+					for i := 0; i < n && len(missing) < 5; i++ {
+						if !seen[i] {
+							missing = append(missing, key(i))
+						}
+					}
+					close(gate)
+					close(rgate)
+					t.Fatalf("C07 violated (calls on different keys never wait for each other): with %d distinct keys in flight (wave %d, %d resident), "+
+						"%d functions did not start within 15 s while the others were parked, e.g. keys %q (singleFlight=%v)",
+						n, wave, nres, n-len(seen), missing, useSF)
+				}
+			}
+			close(gate)
+			wg.Wait()
+			for i := 0; i < n; i++ {
+				if vals[i] != i {
+					close(rgate)
+					t.Fatalf("C07 violated: call on key %q returned %v, its own function returned %d (singleFlight=%v)", key(i), vals[i], i, useSF)
+				}
+			}
+			// the wave is over; the resident flights are still in progress: new calls on their keys
+			for j := 0; j < nres; j++ {
+				jn := &joinT{key: j, wave: wave}
+				jmu.Lock()
+				joins = append(joins, jn)
+				jmu.Unlock()
+				rwg.Add(1)
+				go func(jn *joinT) {
+					defer rwg.Done()
+					jn.val, _ = do(rkey(jn.key), func() (any, error) {
+						jn.ownStart = tick()
+						select {
+						case joinStarted <- jn:
+						default:
+						}
+						return "joiner", nil
+					})
+				}(jn)
+			}
+			if nres > 0 {
+				select {
+				case jn := <-joinStarted:
+					close(rgate)
+					t.Fatalf("C07 violated (at most one execution per key in progress / per-key exclusion): a call on key %q, made after wave %d of %d other keys had "+
+						"come and gone, started its own function while the earlier call on that key was still inside its function (singleFlight=%v)",
+						rkey(jn.key), jn.wave, n, useSF)
+				case <-time.After(5 * time.Millisecond):
+				}
+			}
+		}
+		close(rgate)
+		rwg.Wait()
+		for _, jn := range joins {
+			if jn.ownStart != 0 && jn.ownStart < rend[jn.key] {
+				t.Fatalf("C07 violated: a later call on key %q (after wave %d) executed its function at stamp %d, before the earlier execution on that key ended (stamp %d) (singleFlight=%v)",
+					rkey(jn.key), jn.wave, jn.ownStart, rend[jn.key], useSF)
+			}
+			if useSF && jn.ownStart == 0 && jn.val != "resident" {
+				t.Fatalf("C07 violated: a call on key %q that did not execute returned %v, the execution in flight returned \"resident\"", rkey(jn.key), jn.val)
+			}
+			if !useSF && (jn.ownStart == 0 || jn.val != "joiner") {
+				t.Fatalf("C07 violated: LockedCalls caller on key %q: own function ran=%v, got %v", rkey(jn.key), jn.ownStart != 0, jn.val)
+			}
+		}
+		if nres > 0 {
+			st.Class(fmt.Sprintf("residents-waves=%d", waves))
 		}
 		st.Class(fmt.Sprintf("keys>=%d", n/100*100))
-		st.NonTrivial(fmt.Sprintf("sf=%v n=%d style=%d salt=%q", useSF, n, style, salt))
+		st.NonTrivial(fmt.Sprintf("sf=%v n=%d style=%d salt=%q res=%d waves=%d", useSF, n, style, salt, nres, waves))
 	})
 }
 
@@ -633,25 +722,25 @@ func TestVerifC07ResourceManager(t *testing.T) {
 					func() {
 						defer func() { pv = recover() }()
 						r, err = rm.GetResource(fmt.Sprintf("k%d", p.key), func() (io.Closer, error) {
-						p.inFn.run()
-						if p.pan {
+							p.inFn.run()
+							if p.pan {
+								mu.Lock()
+								failedCreates++
+								mu.Unlock()
+								panic(tokenPanic{-1})
+							}
+							if p.fail {
+								mu.Lock()
+								failedCreates++
+								mu.Unlock()
+								return nil, errors.New("create failed")
+							}
+							x := &res{atomic.AddInt64(&execSeq, 1)}
 							mu.Lock()
-							failedCreates++
+							created[mk] = append(created[mk], x)
 							mu.Unlock()
-							panic(tokenPanic{-1})
-						}
-						if p.fail {
-							mu.Lock()
-							failedCreates++
-							mu.Unlock()
-							return nil, errors.New("create failed")
-						}
-						x := &res{atomic.AddInt64(&execSeq, 1)}
-						mu.Lock()
-						created[mk] = append(created[mk], x)
-						mu.Unlock()
-						return x, nil
-					})
+							return x, nil
+						})
 					}()
 					ret := tick()
 					if pv != nil {
